@@ -289,6 +289,11 @@ theorem decodeRange_snd_sound {ks : Keyspace} {s e : Bytes} {p : Bytes × Bytes}
 theorem decodeRange_nil_nil (ks : Keyspace) : decodeRange ks [] [] = .ok ([], []) := by
   simp [decodeRange, cmp_nil_end, isPrefix_nil_false]
 
+/-- region bucket keys (role `key` in region format): an inner bucket key of this keyspace is delivered stripped -/
+theorem resp_region_key {r : FieldRow} (hs : r.side = .resp) (hf : r.fmt = .region) (hok : r.ok = true)
+    (hr : r.role = .key) (ks : Keyspace) (k : Bytes) : r.action ks (encodeRegionKey ks k) = .ok k := by
+  simp [FieldRow.action, resp_ok_region hs hf hok, hr, encodeRegionKey, memDecode_encode, encodeKey, isPrefix_append]
+
 /-- a region bound that is delivered non-empty is the (memcomparable form of the) encoding of the delivered key in
     THIS keyspace: a bound belonging to another keyspace is clipped to "unbounded" or the region is rejected,
     it is never handed to the caller as a key -/
@@ -300,7 +305,18 @@ theorem resp_region_sound {r : FieldRow} (hs : r.side = .resp) (hf : r.fmt = .re
   rw [he] at h
   simp only at h
   cases hr : r.role with
-  | key => rw [hr] at h; cases h
+  | key =>
+    rw [hr] at h
+    simp only at h
+    cases hm : memDecode x with
+    | error e => simp [hm] at h
+    | ok s =>
+      simp only [hm] at h
+      split at h
+      · rename_i hp
+        cases h
+        rw [encodeKey, ← isPrefix_eq_append hp]
+      · cases h
   | start =>
     rw [hr] at h
     simp only at h
